@@ -240,7 +240,7 @@ func c10Case(o *Out, r *Rng) {
 		}
 	} else if kind == "reject" {
 		// what stands for a type in the condition: an undefined name, also wrapped; a directive's name (not a type)
-		badCond := Pick(r, []string{"Nope", "Nope", "Nope!", "[Nope]", "skip", "Query!", "[Query]"})
+		badCond := Pick(r, []string{"Nope", "Nope", "Nope!", "[Nope]", "skip", "Query!", "[Query]", "String", "Int"})
 		if reject == "undefined-type-condition" {
 			o.Count("bad-type-condition=" + badCond)
 		}
